@@ -159,6 +159,10 @@ def harnesses(tier):
                 bounds={'sources': 2, 'forms': '2 x 2' if q else '2 x 3', 'publishes_per_source': 2, 'publisher_restarts': '<=1 per source (ids start over, any value)',
                         'consumer_restart': '<=1 (fresh ZMQReceiver, queued messages stay)'},
                 functions=fn, stubs=stubs, assumptions=assume, budget_s=600 if q else 1800),
+        Harness('c02.recv_stream.ctrl', recv_scenario([FA[:2], FB[:2] if q else FB[:4]], 2, 12, 0, ctrl=True),
+                bounds={'sources': 2, 'forms': '2 x 2' if q else '2 x 4', 'publishes_per_source': 2, 'poll_decisions': 12,
+                        'control message': 'none, or one HELLO / out-of-band / CLOSE message of a publisher at any position of the stream'},
+                functions=fn, stubs=stubs, assumptions=assume, budget_s=600 if q else 1800),
         Harness('c02.dup_destination', dupdst_scenario, bounds={'forms': '3 x 3', 'id': 'unbounded'}, functions=fn, stubs=stubs, assumptions=assume, budget_s=120),
         Harness('c02.send_backlog', send_scenario(2 if q else 3), twin=send_scenario(2, planted=True),
                 bounds={'requests_queued': 2 if q else 3, 'request ids': 'unbounded Int >= -1', 'min_send_id': 'unbounded Int >= 0', 'state': 'None or unbounded id',
